@@ -25,16 +25,17 @@ ALL_INVS = ["InvAcyclic", "InvTerminates", "InvLookup", "InvInherits", "InvHiera
 # small universes of Config_MC (constants of the generated cfg)
 PROFILES = {
     # single-level classes, three names: inheritance chains, rebinding, delete, append
-    "inherit": dict(CN=["A", "B", "C"], FN=["x"], NVals=[1, 2], SVals=[], AIdx=[1, 2], NestC=0,
+    "inherit": dict(CN=["A", "B", "C"], FN=["x"], NVals=[1, 2], SVals=[], BVals=[], AIdx=[1, 2], NestC=0,
                     Kinds=["class", "classext", "field", "array", "append", "delete", "deleteclass"]),
     # nested classes, two names: base resolution through the enclosing classes, nested re-opening
-    "nest": dict(CN=["A", "B"], FN=["x"], NVals=[1], SVals=[], AIdx=[1], NestC=1,
+    "nest": dict(CN=["A", "B"], FN=["x"], NVals=[1], SVals=[], BVals=[], AIdx=[1], NestC=1,
                  Kinds=["class", "classext", "field", "array", "append", "delete", "deleteclass"]),
-    # all statement kinds incl. `class N;`, `class N : B;`, file boundary; strings and nested arrays
-    "kinds": dict(CN=["A", "B"], FN=["x", "y"], NVals=[1], SVals=["s"], AIdx=[3], NestC=0,
+    # all statement kinds incl. `class N;`, `class N : B;`, file boundary; strings, nested arrays, hexadecimal literals
+    # (16 = 0x10, 255 = $FF, and whole numbers >= 2^31 as decimal strings: TLC's integers are 32 bit)
+    "kinds": dict(CN=["A", "B"], FN=["x", "y"], NVals=[1, 16], SVals=["s"], BVals=["4294901760"], AIdx=[3, 5], NestC=0,
                   Kinds=["class", "classext", "decl", "declext", "field", "array", "append", "delete", "deleteclass", "nextfile"]),
     # class statements only: every way to (re)bind bases among three classes incl. nesting
-    "bases": dict(CN=["A", "B", "C"], FN=["x"], NVals=[1], SVals=[], AIdx=[1], NestC=1,
+    "bases": dict(CN=["A", "B", "C"], FN=["x"], NVals=[1], SVals=[], BVals=[], AIdx=[1], NestC=1,
                   Kinds=["class", "classext", "field"]),
 }
 
@@ -71,12 +72,13 @@ CONSTANTS
   Kinds = %s
   NVals = %s
   SVals = %s
+  BVals = %s
   AIdx = %s
   NestC = %d
 VIEW %s
 INVARIANTS %s
 """ % (tla_set(dev), max_files, depth, emit, tla_set(p["CN"]), tla_set(p["FN"]), tla_set(p["Kinds"]), tla_set(p["NVals"]),
-       tla_set(p["SVals"]), tla_set(p["AIdx"]), p["NestC"], "ViewStep" if step_view else "View", " ".join(invs))
+       tla_set(p["SVals"]), tla_set(p["BVals"]), tla_set(p["AIdx"]), p["NestC"], "ViewStep" if step_view else "View", " ".join(invs))
     path = os.path.join(vlib.SPEC, "gen_c15_" + name + ".cfg")
     with open(path, "w") as f:
         f.write(cfg)
@@ -114,9 +116,17 @@ def normalize(hist, style):
     return files
 
 
+# spelling of numbers as hexadecimal literals (the reference value stays the number itself; the big
+# ones are exactly representable as float, so nothing is rounded on the way)
+HEX_SMALL = {16: "0x10", 255: "$FF"}
+HEX_BIG = {"2147483648": "0x80000000", "4294901760": "0xFFFF0000", "4294967040": "$FFFFFF00", "3221225472": "0xc0000000"}
+
+
 def value_text(v):
     if v["t"] == "n":
-        return str(v["n"])
+        return HEX_SMALL.get(v["n"], str(v["n"]))
+    if v["t"] == "N":
+        return HEX_BIG[v["N"]]
     if v["t"] == "s":
         return '"' + v["s"].replace('"', '""') + '"'
     if v["t"] == "a":
@@ -192,9 +202,11 @@ def driver_case(c, force=False):
 # ------------------------------------------------------------------------------------------------
 # seeded random candidate histories (filtered by TLC through Enabled of Config.tla)
 # ------------------------------------------------------------------------------------------------
-RVALS = [{"t": "n", "n": 1}, {"t": "n", "n": 2}, {"t": "n", "n": -7}, {"t": "s", "s": "s"}, {"t": "s", "s": "a\"b"}, {"t": "s", "s": ""}]
+RVALS = [{"t": "n", "n": 1}, {"t": "n", "n": 2}, {"t": "n", "n": -7}, {"t": "s", "s": "s"}, {"t": "s", "s": "a\"b"}, {"t": "s", "s": ""},
+         {"t": "n", "n": 255}, {"t": "N", "N": "2147483648"}, {"t": "N", "N": "4294967040"}, {"t": "N", "N": "3221225472"}]
 RARRS = [{"t": "a", "a": []}, {"t": "a", "a": [{"t": "n", "n": 1}]}, {"t": "a", "a": [{"t": "n", "n": 2}, {"t": "s", "s": "s"}]},
-         {"t": "a", "a": [{"t": "n", "n": 3}, {"t": "a", "a": [{"t": "s", "s": "t"}, {"t": "a", "a": []}]}]}]
+         {"t": "a", "a": [{"t": "n", "n": 3}, {"t": "a", "a": [{"t": "s", "s": "t"}, {"t": "a", "a": []}]}]},
+         {"t": "a", "a": [{"t": "N", "N": "4294967040"}, {"t": "a", "a": [{"t": "n", "n": 16}, {"t": "N", "N": "2147483648"}]}]}]
 
 
 def random_candidates(rng, n, length):
@@ -291,9 +303,11 @@ def run(rep, tier, seed, replay):
     wdir = vlib.workdir("C15")
     rep.assumptions += [
         "small-scope: class names {A,B,C}, value names {x,y}, nesting depth <= 2, <= 2 files in the exhaustive part (<= 3 in the random part); "
-        "class and value names are disjoint; numbers are small integers, strings and nested arrays from a fixed pool",
+        "class and value names are disjoint; numbers are small integers (decimal, 0x.. and $.. spellings) and whole numbers in [2^31, 2^32) written as "
+        "hexadecimal literals that are exact in the VM's float (compared as decimal strings: TLC's integers are 32 bit); strings and nested arrays from a fixed pool",
         "statements the property is silent about are not generated (Enabled of Config.tla): re-opening with an unresolvable base, "
-        "+= on a name the body already defines or whose inherited entry is not an array, delete of a class that is (or encloses) a base class",
+        "+= on a name the body already defines or whose inherited entry is not an array, delete of a class that is (or encloses) a base class; "
+        "a name defined again after `delete` in the same body is an own entry again (found, read back, counted, selected; its position among the own entries is left open)",
         "base names resolve through the enclosing classes (own entries, nearest first) as in the code; += takes the inherited array at load time",
         "configHierarchy is accepted with or without the root in front and with or without the entry itself at the end; "
         "getX is compared only on entries of type X and on configNull (defaults of tests/sqf/config.sqf)",
